@@ -16,7 +16,7 @@ from pathlib import Path
 import numpy as np
 
 PROP = "C47"
-N = {"quick": 500, "thorough": 30000}
+N = {"quick": 500, "thorough": 12000}
 WORKERS = {"quick": 3, "thorough": 16}
 TIMEOUT = {"quick": 300, "thorough": 3000}
 CASE_TIMEOUT = 60.0
@@ -158,7 +158,8 @@ def _gen_txt(rng):
 
 
 def generate(rng, tier, i):
-    kind = str(rng.choice(["csv2d", "csv3d", "txt"], p=[0.3, 0.3, 0.4]))
+    # a 3-D case costs ~0.4 s (PlaneFracture checks convexity with sympy): lower share
+    kind = str(rng.choice(["csv2d", "csv3d", "txt"], p=[0.35, 0.15, 0.5]))
     return {"csv2d": _gen_csv2d, "csv3d": _gen_csv3d, "txt": _gen_txt}[kind](rng)
 
 
